@@ -9,3 +9,7 @@ mod types;
 pub use all_but_one::*;
 pub use soft_spoken_ot::*;
 pub use types::*;
+
+/// Verification hook: re-export of the private GF(2^128) product.
+#[cfg(sl_crypto_verif)]
+pub use mul_poly::binary_field_multiply_gf_2_128 as verif_binary_field_multiply_gf_2_128;
